@@ -439,6 +439,26 @@ def oom(tier, seed):
     return out
 
 
+def nul_bytes(tier):
+    """zero bytes at every position of short inputs (the character source may deliver them; mpt_parse_getchar hands
+    them to the caller without storing them): every string of length <= 4 (thorough 5) over section start, assign
+    character, 'a', blank, line feed and NUL that contains a NUL, for each of the 10 format descriptions"""
+    out = []
+    top = 4 if tier == "quick" else 5
+    for name, desc in FORMATS:
+        d = desc or "{*} = #"
+        alpha = sorted(set([d[0], d[4] if len(d) > 4 and d[4] != " " else "=", "a", " ", "\n", "\0"]))
+        strings = []
+        for n in range(1, top + 1):
+            for t in itertools.product(alpha, repeat=n):
+                if "\0" in t:
+                    strings.append("".join(t))
+        per = 60
+        for i in range(0, len(strings), per):
+            out.append(("nul:%s:%d" % (name, i), [fmt_line(desc)] + group(strings[i:i + per]) + ["p end"]))
+    return out
+
+
 def deep(tier):
     """nesting depth beyond what a recursive cleanup survives: the text is built by the driver"""
     lines = [fmt_line(None), "p deep 20 closed", "p deep 20 open", "p deep 400000 closed"]
@@ -455,6 +475,7 @@ def scripts(tier, seed, scale=1):
     rest += buffer_steps(tier)
     rest += grammar(tier, seed, scale)
     rest += formats(tier, seed, scale)
+    rest += nul_bytes(tier)
     return out + stat_all(keep_all(rest)) + oom(tier, seed) + deep(tier)
 
 
